@@ -1,11 +1,12 @@
 """C02 - type soundness: accepted programs never hit dynamic type errors.
 
-SyltSound (TLA+) defines the universe of ALMOST-WELL-TYPED programs: a menu of 21 perturbation kinds (P1..P21: literal of
+SyltSound (TLA+) defines the universe of ALMOST-WELL-TYPED programs: a menu of 24 perturbation kinds (P1..P24: literal of
 another type, operator of another class, argument dropped/added, declaration moved into a branch with the use left
 after it, use before declaration, call of a non-function, missing field, function parameter at two types, branches of
 different types, void as value, variant payloads, list element types, field / variable assigned another type, global
-order, case bindings, annotations, return types, tuple index, conditions, missing return) applied at EVERY applicable
-node of well-typed bases: 14 dedicated programs (one of them perturbed inside the common Prelude too), SyltGen's templates in their harness contexts, and (thorough) a seeded
+order, case bindings, annotations, return types, tuple index, conditions, missing return, a value of a similar user type,
+an ill-typed operand routed through an un-annotated parameter by provenance, a name used outside its region) applied at EVERY applicable
+node of well-typed bases: 17 dedicated programs (one of them perturbed inside the common Prelude too), SyltGen's templates in their harness contexts, and (thorough) a seeded
 shard of the pairwise nesting.  TLC (MC_Sound, MODE=emit) enumerates (base, site, alternative) and prints the programs.
 The recorder (c02) compiles each with the real compiler and runs ONLY the accepted ones in minilua, logging the run.
 TLC (Trace_Sound) re-derives every case from its id, validates the recorded events against SyltSound's outcome
@@ -31,10 +32,15 @@ def signature(case, why):
 
 
 def tail_of(src):
-    """program text after the common prelude (which ends with `twice`)"""
+    """program text after the common part (the Prelude ends with `twice`, the similar-type declarations with `WI`)"""
     i = src.find("twice :: fn")
     j = src.find("\nend\n", i)
-    return src[j + 5:].strip("\n") if i >= 0 and j >= 0 else src
+    cut = j + 5 if i >= 0 and j >= 0 else 0
+    i = src.find("WI :: blob {")
+    j = src.find("\n}\n", i)
+    if i >= 0 and j >= 0:
+        cut = max(cut, j + 3)
+    return src[cut:].strip("\n")
 
 
 def emit(wd, name, env, timeout):
@@ -259,7 +265,7 @@ def run(ctx):
            trace_actions_records=action_counts, reference_run_status=spec_status,
            emit_wall_s=round(r.wall_s, 1), validate_wall_s=round(v.wall_s, 1),
            negative_controls_rejected=neg_total, known_findings_hit=verdicts.known_hits, exhaustive=(tier == "thorough" and False),
-           rule=universe_rule + "; every alternative of the 21-kind menu at every node; non-trivial = the perturbed program was ACCEPTED by the compiler "
+           rule=universe_rule + "; every alternative of the 24-kind menu at every node; non-trivial = the perturbed program was ACCEPTED by the compiler "
                 "and run to a terminal event (the property only speaks about those); distinct by AST hash",
            samples=samples)
     ev.assume("minilua stands in for Lua 5.3; its error classes (arithmetic / call / index / compare / concat / bad argument) follow the reference manual's messages",
